@@ -88,7 +88,7 @@ func (c *CompactionWorker) compact(datasetID string, strategy CompactionStrategy
 		}
 
 	}
-	_, err := flushDeletes(c.bs, ops, true, strategy)
+	_, err := flushDeletes(c.bs, dsId, ops, true, strategy)
 	if err != nil {
 		return err
 	}
@@ -121,7 +121,7 @@ func (c *CompactionWorker) forEntity(dsId types.InternalDatasetID, internalEntit
 		}
 		ops.append(instr)
 
-		reset, err4 := flushDeletes(c.bs, ops, false, strategy)
+		reset, err4 := flushDeletes(c.bs, dsId, ops, false, strategy)
 		if reset {
 			ops.reset()
 		}
@@ -156,11 +156,17 @@ func (c *CompactionWorker) forEntity(dsId types.InternalDatasetID, internalEntit
 }
 
 // for efficiency, we flush deletes in batches
-func flushDeletes(bs store.BadgerStore, ops *compactionInstruction, finalFlush bool, strategy CompactionStrategy) (bool, error) {
+func flushDeletes(bs store.BadgerStore, dsID types.InternalDatasetID, ops *compactionInstruction, finalFlush bool, strategy CompactionStrategy,
+) (bool, error) {
 	if !finalFlush && len(ops.DeleteKeys) < strategy.flushThreshold() {
 		return false, nil
 	}
 	verifhook.Point(bs.GetDB(), "compact.beforeFlush")
+	// The store runs badger without conflict detection. A writer committing while this transaction is open
+	// would not be seen by the re-check of the latest pointers below and would be overwritten by it: writers of
+	// the dataset stay out for the duration of a flush
+	unlock := bs.LockDatasetForWrite(dsID)
+	defer unlock()
 	err := bs.GetDB().Update(func(txn *badger.Txn) error {
 		bufferedKeys, err := strategy.flush(txn)
 		if err != nil {
